@@ -680,6 +680,8 @@ int main(int argc, char **argv) {
     if (NW > MAXW) NW = MAXW;
     if (NCASES < 0) NCASES = M->random_cases[CFG.tier];
     KASE = calloc(1, M->case_size + 64);
+    /* the parent decodes cases itself when it writes a shrunk or upgraded file: generators may rely on tables their init builds */
+    if ((upgrade || shrink) && M->init) M->init(&CFG);
     if (upgrade) {
         /* print the decoded case of a choices-only case file as hex */
         cs_t cs;
